@@ -31,6 +31,7 @@ def model_check(ctx):
     ctx.mc_expect("MC_Writers", "DEV_Writers_2.cfg", "PropOwnInputs")
     ctx.mc_expect("MC_Writers", "DEV_Writers_3.cfg", "PropOwnInputs")
     ctx.mc_expect("MC_Writers", "DEV_Writers_4.cfg", "PropOwnInputs")
+    ctx.mc_expect("MC_Writers", "DEV_Writers_5.cfg", "PropOwnInputs")
     if ctx.thorough:      # unbounded histories: inductive invariant of spec/APA_Writers.tla checked by Apalache (crv/apalache.py)
         from crv import apalache
         apalache.append_run(ctx, "APA_Writers")
@@ -55,6 +56,9 @@ def cases(ctx):
         for _ in range(12):
             if nw > 0 and rng.random() < 0.12:
                 ops.append({"op": "edit", "w": 0, "path": "", "mode": "", "kind": "", "fmt": "", "d": 0})
+            elif nw > 0 and rng.random() < 0.1:
+                ops.append({"op": "fail", "w": rng.randint(1, nw), "path": "", "mode": "", "kind": rng.choice(["full", "scenario"]),
+                            "fmt": "", "d": 0})
             elif nw == 0 or (nw < 5 and rng.random() < 0.3):
                 nw += 1
                 ops.append({"op": "new", "w": nw, "path": "", "mode": "", "kind": "", "fmt": rng.choice(["xml", "pb"]),
@@ -185,6 +189,16 @@ def execute(case):
             if a["w"] not in writers:
                 continue
             wr, fmt, dd = writers[a["w"]]
+            if a["op"] == "fail":                                   # a write that cannot succeed: the directory is missing
+                bad = os.path.join(d, "no-such-directory", "x." + ("xml" if fmt == "xml" else "pb"))
+                exc = "None"
+                try:
+                    (wr.write_to_file if a["kind"] == "full" else wr.write_scenario_to_file)(bad, OverwriteExistingFile.ALWAYS)
+                except Exception as ex:
+                    exc = "exc:" + type(ex).__name__
+                shutil.rmtree(os.path.join(d, "no-such-directory"), ignore_errors=True)
+                ev.append({"op": "fail", "w": a["w"], "kind": a["kind"], "exc": exc, "sig": "fail/%s/%s" % (fmt, a["kind"])})
+                continue
             path = os.path.join(d, a["path"])
             mode = OverwriteExistingFile.ALWAYS if a["mode"] == "always" else OverwriteExistingFile.SKIP
             existed = os.path.exists(path)
